@@ -13,8 +13,25 @@ sys.path.insert(0, os.path.dirname(os.path.abspath(__file__)))
 from common import *
 import archive_common as ac
 
-STRUCT_KINDS = ["reset_after_whfast", "single_change", "ias15_reset", "remove_all", "single_change", "shrink_zero_reappear",
-                "grow_first", "same_time", "negzero"]
+STRUCT_KINDS = ["reset_after_whfast", "single_change", "lazy_arrays", "ias15_reset", "time_games", "remove_all", "single_change", "lazy_arrays",
+                "shrink_zero_reappear", "roles", "grow_first", "callbacks", "same_time", "lazy_arrays", "variations", "negzero", "nothing_changed",
+                "lazy_arrays"]
+
+# dimensions the history generator must cross with the oracle (a zero count is a broken obligation)
+REQUIRED_DIMS = ["integrator:" + i for i in ac.INTEGRATORS] + [
+    "lazy_arrays:ias15", "lazy_arrays:whfast_unsafe", "lazy_arrays:mercurius_encounter", "lazy_arrays:bs", "lazy_arrays:janus",
+    "lazy_arrays:trace_encounter", "roles:N_active<N", "roles:testparticle_type", "roles:massless_particle", "roles:single_body",
+    "variational:nonzero_data", "variational:testparticle", "variational:megno", "variational:second_order", "variational:lrescale",
+    "callbacks:additional_forces", "callbacks:post_timestep_modifications", "callbacks:collision_resolve", "callbacks:heartbeat",
+    "options:safe_mode=0", "options:keep_unsynchronized", "time:dt<0_cadence", "time:direction_reversal", "time:integrate_split",
+    "time:exact_finish_time=1", "time:exact_finish_time_omitted", "time:repeats_t0_later", "time:goes_backwards", "time:huge_t",
+    "history:nothing_changed", "history:array_vanishes", "history:array_appears", "history:particles_to_zero", "history:merge_collision",
+    "history:integrator_switch", "history:reset_integrator", "history:single_field_change", "history:synchronize",
+    "cadence:interval", "cadence:step", "cadence:walltime", "cadence:mixed_manual", "scale:archive>1024", "scale:archive>2048",
+    "scale:counter>=2^32", "scale:huge_N", "python_api:getitem", "python_api:getitem_negative", "python_api:iteration",
+    "python_api:getSimulation_snapshot_between", "python_api:getSimulation_exact", "python_api:getSimulation_close",
+    "python_api:getSimulations", "python_api:tmin_tmax", "python_api:Simulation(filename,snapshot)", "python_api:delete_file",
+    "python_api:delete_file_interval_rearmed"]
 K_F1 = "F1:vanished-array-old-size"
 K_F11 = "F11:index-time-when-t-equals-t0"
 K_F19 = "F19:index-builder-trusts-field-size"
@@ -223,6 +240,129 @@ def wall_case(c, rebound, exe, W, stats, rng, idx):
     shutil.rmtree(wd, ignore_errors=True)
 
 
+def api_case(c, rebound, W, stats, dims, rng):
+    """every public restore path of the Python layer on one archive with strictly increasing times"""
+    wd = os.path.join(W, "api")
+    os.makedirs(wd, exist_ok=True)
+    fn = os.path.join(wd, "api.bin")
+    integ = rng.choice(["leapfrog", "whfast", "ias15"])
+    nsn = rng.randint(5, 8)
+
+    def child():
+        import warnings
+        warnings.filterwarnings("ignore")
+        bad, done = [], []
+        sim = rebound.Simulation()
+        sim.add(m=1.0); sim.add(m=1e-3, a=1.0); sim.add(m=1e-3, a=1.7)
+        sim.integrator = integ
+        sim.dt = 0.01
+        ts, xs = [], []
+        for i in range(nsn):
+            sim.save_to_file(fn)
+            ts.append(sim.t); xs.append(sim.particles[1].x)
+            sim.steps(3 + i)
+        sa = rebound.Simulationarchive(fn)
+        n = len(sa)
+
+        def chk(name, cond, info=""):
+            done.append(name)
+            if not cond:
+                bad.append((name, str(info)[:200]))
+        chk("len", n == nsn and sa.nblobs == nsn, (n, sa.nblobs))
+        chk("tmin_tmax", sa.tmin == ts[0] and sa.tmax == ts[-1], (sa.tmin, sa.tmax))
+        chk("getitem", all(sa[i].t == ts[i] and sa[i].particles[1].x == xs[i] for i in range(n)))
+        chk("getitem_negative", sa[-1].t == ts[-1] and sa[-n].t == ts[0] and sa[-2].t == ts[-2])
+        try:
+            sa[n]
+            chk("getitem_out_of_range", False)
+        except IndexError:
+            chk("getitem_out_of_range", True)
+        chk("iteration", [s_.t for s_ in sa] == ts)
+        chk("Simulation(filename,snapshot)", all(rebound.Simulation(fn, snapshot=i).t == ts[i] for i in range(n)))
+        chk("Simulation(filename)", rebound.Simulation(fn).t == ts[-1])
+        chk("Simulation(sa,snapshot)", rebound.Simulation(sa, snapshot=1).t == ts[1])
+        chk("getSimulation_snapshot_exact_time", all(sa.getSimulation(ts[i]).t == ts[i] for i in range(n)))
+        mids = [(0.5 * (ts[i] + ts[i + 1]), i) for i in range(n - 1)]
+        chk("getSimulation_snapshot_between", all(sa.getSimulation(tm).t == ts[i] for tm, i in mids), [(tm, sa.getSimulation(tm).t, ts[i]) for tm, i in mids][:3])
+        chk("getSimulation_exact", all(sa.getSimulation(tm, mode="exact").t == tm for tm, i in mids))
+        chk("getSimulation_close", all(tm <= sa.getSimulation(tm, mode="close").t <= tm + 0.011 for tm, i in mids))
+        chk("getSimulations", [s_.t for s_ in sa.getSimulations([ts[1], ts[2]])] == [ts[1], ts[2]])
+        try:
+            sa.getSimulation(ts[-1] + 1.0)
+            chk("getSimulation_outside", False)
+        except ValueError:
+            chk("getSimulation_outside", True)
+        del sa
+        # delete_file=True: the archive starts over with the current state
+        sim.save_to_file(fn, delete_file=True)
+        sb = rebound.Simulationarchive(fn)
+        chk("delete_file", len(sb) == 1 and sb[0].t == sim.t and sb[0] == sim, (len(sb),))
+        del sb
+        # delete_file=True with a cadence: re-armed at the current time
+        tstart = sim.t
+        sim.save_to_file(fn, interval=0.05, delete_file=True)
+        sim.integrate(sim.t + 0.2, exact_finish_time=0)
+        sc = rebound.Simulationarchive(fn)
+        chk("delete_file_interval_rearmed", len(sc) >= 4 and sc[0].t == tstart and abs(sc[1].t - (tstart + 0.05)) < 0.011, [sc.t[i] for i in range(len(sc))][:5])
+        json.dump(dict(bad=bad, done=done), open(os.path.join(wd, "res.json"), "w"))
+    rc = ac.fork_run(child, timeout=60)
+    rp = os.path.join(wd, "res.json")
+    if rc != 0 or not os.path.exists(rp):
+        c.violation("api:died", "Python restore paths kill the process (status %s)" % rc, dict(integrator=integ, snapshots=nsn))
+        return
+    res = json.load(open(rp))
+    for name in res["done"]:
+        dims["python_api:" + name] = dims.get("python_api:" + name, 0) + 1
+        c.count(("api", name, integ))
+    for name, info in res["bad"]:
+        c.violation("api:" + name, "Python path %s returns the wrong snapshot (%s)" % (name, info), dict(integrator=integ, snapshots=nsn))
+    shutil.rmtree(wd, ignore_errors=True)
+
+
+def big_counter_case(c, rebound, exe, W, stats, dims):
+    """step cadence across steps_done = 2^32 (uint64 counters)"""
+    wd = os.path.join(W, "ctr")
+    os.makedirs(wd, exist_ok=True)
+    fn = os.path.join(wd, "ctr.bin")
+    start = 2 ** 32 - 5
+
+    def child():
+        import warnings
+        warnings.filterwarnings("ignore")
+        sim = rebound.Simulation()
+        sim.add(m=1.0); sim.add(m=0.0, x=1.0, vy=1.0)
+        sim.integrator = "leapfrog"
+        sim.dt = 0.01
+        sim.steps_done = start
+        sim.save_to_file(fn, step=2)
+        sim.integrate(sim.dt * 11.5, exact_finish_time=0)
+        sa = rebound.Simulationarchive(fn, process_warnings=False)
+        last = sa[-1]
+        json.dump(dict(nblobs=int(sa.nblobs), last_steps=int(last.steps_done), live_steps=int(sim.steps_done),
+                       next_step=int(sim.simulationarchive_next_step), last_next=int(last.simulationarchive_next_step)), open(os.path.join(wd, "res.json"), "w"))
+    rc = ac.fork_run(child, timeout=60)
+    if rc != 0 or not os.path.exists(os.path.join(wd, "res.json")):
+        c.violation("counter:died", "step cadence across steps_done = 2^32 kills the process (status %s)" % rc, dict(start=start))
+        return
+    res = json.load(open(os.path.join(wd, "res.json")))
+    blobs = ac.parse_archive(open(fn, "rb").read())
+    recs0 = blobs[0]["recs"]
+    sds = []
+    for j, bl in enumerate(blobs):
+        recs = ac.overlay(recs0, bl["recs"]) if j else bl["recs"]
+        sds.append(struct.unpack("<Q", ac.rec_value(recs, ac.STEPS))[0])
+    want = [start + 2 * j for j in range(len(sds))]
+    o = run_driver(exe, ["cadstep 2 %d %s" % (start, " ".join(str(start + i) for i in range(13)))])[0].split()
+    dims["counter_ge_2^32"] = dims.get("counter_ge_2^32", 0) + len([x for x in sds if x >= 2 ** 32])
+    c.count(("counter", len(sds)), n=len(sds))
+    rep = dict(start=start, snapshots_at=sds, reader=res, model=o)
+    if sds != want or res["nblobs"] != len(sds) or res["last_steps"] != sds[-1] or res["last_next"] != sds[-1] + 2:
+        c.violation("counter:steps_done-2^32", "step cadence across steps_done = 2^32: snapshots at %s, want %s" % (sds, want), rep)
+    if o[0].count("1") != len(sds):
+        c.corr_break("step-cadence model across 2^32 differs from the real code", rep)
+    shutil.rmtree(wd, ignore_errors=True)
+
+
 def big_archive(c, rebound, exe, V, W, n, stats):
     """more snapshots than the reader's initial index capacity (1024, grown in chunks of 1024): a tiny simulation,
     one automatic snapshot per step; count, offsets, times and the last snapshot must be right"""
@@ -318,9 +458,10 @@ def _run(c, rebound, exe, W):
                       "delta law stated for an exact comparison and, for any comparison, up to what it calls 'same'"]
     stats = dict(histories=0, appends=0, bytes_equal=0, index_equal=0, snapshots_decoded=0, child_crash=0, skipped_ops=0,
                  vanish_histories=0, appear_histories=0, shrink_zero=0, same_t0=0, auto_histories=0, auto_snapshots=0,
-                 lagging=0, auto_forward=0, auto_backward=0, auto_mixed=0, cadence_segments_model_equal=0, single_change_snapshots=0, reader_overflow=0, model_undefined=0, eq_checked=0, fieldwise_checked=0, link_true=0, merges=0, nocapture=0)
+                 lagging=0, reduced_oracle_histories=0, auto_forward=0, auto_backward=0, auto_mixed=0, cadence_segments_model_equal=0, single_change_snapshots=0, reader_overflow=0, model_undefined=0, eq_checked=0, fieldwise_checked=0, link_true=0, merges=0, nocapture=0)
     integ_hist = {}
     hazards = {}
+    dims = {}
     change_kinds = {}
     outside = {}
     kinds_hist = {}
@@ -329,7 +470,15 @@ def _run(c, rebound, exe, W):
         big_archive(c, rebound, exe, V, W, nbig, stats)
     for iw in range(6 if c.thorough else 2):
         wall_case(c, rebound, exe, W, stats, c.rng.fork(), iw)
-    c.log("big archives and wall-time cadence done")
+    api_case(c, rebound, W, stats, dims, c.rng.fork())
+    big_counter_case(c, rebound, exe, W, stats, dims)
+    if stats.get("wall_runs"):
+        dims["cadence:walltime"] = stats["wall_runs"]
+    if stats.get("big_archive_blobs", 0) > 1024:
+        dims["scale:archive>1024"] = 1
+    if stats.get("big_archive_blobs", 0) > 2048:
+        dims["scale:archive>2048"] = 1
+    c.log("big archives, wall-time cadence, API paths, counters done")
     batch = []
     hi = 0
 
@@ -338,10 +487,11 @@ def _run(c, rebound, exe, W):
         lines, owners = [], []
         for h in batch:
             wd, meta, n = h["wd"], h["meta"], h["n"]
-            if n == 0 or h["nocapture"]:
+            if n == 0:
                 continue
-            ss = " ".join(os.path.join(wd, "s%d.bin" % k) for k in range(n))
-            lines.append("arch %s %s %s" % (V, os.path.join(wd, "model.bin"), ss)); owners.append((h, "arch", None))
+            if not h["nocapture"]:
+                ss = " ".join(os.path.join(wd, "s%d.bin" % k) for k in range(n))
+                lines.append("arch %s %s %s" % (V, os.path.join(wd, "model.bin"), ss)); owners.append((h, "arch", None))
             lines.append("open %s %s" % (V, os.path.join(wd, "arch.bin"))); owners.append((h, "open", None))
             nb = (meta["back"].get("nblobs", 0) or 0) if not meta["back"].get("error") else 0
             for k in range(nb):
@@ -439,8 +589,18 @@ def _run(c, rebound, exe, W):
         for k in range(n):
             p = os.path.join(wd, "s%d.bin" % k)
             S.append(ac.parse_stream(open(p, "rb").read())[1] if os.path.exists(p) else None)
-        if any(s is None for s in S):
-            return
+        reduced = any(s_ is None for s_ in S)
+        if reduced:
+            # automatic snapshots under exact_finish_time=1 / omitted: no live serialisation could be captured.  The
+            # independent re-parser's view of the file stands in: count, offsets, times, cadence and the real
+            # loader (vs the re-parser) are still checked
+            stats["reduced_oracle_histories"] += 1
+            for k in range(n):
+                if S[k] is None and k < len(blobs):
+                    S[k] = ac.overlay(blobs[0]["recs"], blobs[k]["recs"]) if k else blobs[0]["recs"]
+            if any(s_ is None for s_ in S):
+                V("count:nocapture", "archive holds %d blobs after %d snapshots were taken" % (len(blobs), n), dict(history=hist))
+                return
         ids0 = {ty for ty, pl, _ in S[0] if len(pl)}
         # structural events, by construction and measured
         van, app = set(), set()
@@ -466,6 +626,82 @@ def _run(c, rebound, exe, W):
         same_t0 = [k for k in range(1, n) if ac.rec_value(S[k], ac.T_ID) == t0]
         if same_t0:
             stats["same_t0"] += 1
+        skipped = [json.dumps(x) for x in meta["skipped"]]
+        done_ops = [o for o in hist["ops"] if json.dumps(o) not in skipped]
+        evs = [e for e in meta["events"] if isinstance(e, str)]
+        D = set()
+        D.add("integrator:" + hist["init"]["integrator"])
+        for o in done_ops:
+            if o[0] == "integrator":
+                D.add("integrator:" + o[1]); D.add("history:integrator_switch")
+            elif o[0] == "reset":
+                D.add("history:reset_integrator")
+            elif o[0] == "synchronize":
+                D.add("history:synchronize")
+            elif o[0] == "set":
+                if o[1] == "N_active" and o[2] > 0:
+                    D.add("roles:N_active<N")
+                if o[1] == "testparticle_type":
+                    D.add("roles:testparticle_type")
+                if o[1].endswith("safe_mode") and o[2] == 0:
+                    D.add("options:safe_mode=0")
+                if o[1].endswith("keep_unsynchronized") and o[2] == 1:
+                    D.add("options:keep_unsynchronized")
+            elif o[0] == "massless":
+                D.add("roles:massless_particle")
+            elif o[0] == "lrescale" or (o[0] == "change" and o[1][0] == "lrescale"):
+                D.add("variational:lrescale")
+            elif o[0] == "variation" and o[1] == 2 and hist["init"]["integrator"] == "ias15":
+                D.add("variational:second_order")
+            elif o[0] == "change":
+                D.add("history:single_field_change")
+            elif o[0] == "sett":
+                D.add({"t0": "time:repeats_t0_later", "prev": "time:goes_backwards"}.get(o[1], "time:huge_t" if isinstance(o[1], float) and abs(o[1]) > 1e12 else "time:goes_backwards"))
+        if any(p_.get("m") == 0.0 for p_ in hist["init"]["particles"][1:]):
+            D.add("roles:massless_particle")
+        if len(hist["init"]["particles"]) == 1:
+            D.add("roles:single_body")
+        for e in evs:
+            if e == "varinit":
+                D.add("variational:nonzero_data")
+            elif e == "variation_tp":
+                D.add("variational:testparticle")
+            elif e == "megno":
+                D.add("variational:megno")
+            elif e.startswith("callback:"):
+                D.add("callbacks:" + e.split(":")[1])
+            elif e.startswith("merge:"):
+                D.add("history:merge_collision")
+        if hist.get("tag"):
+            D.add("lazy_arrays:" + hist["tag"])
+        if hist["structural"] == "nothing_changed":
+            D.add("history:nothing_changed")
+        if hist["structural"] == "huge_n":
+            D.add("scale:huge_N")
+        if van:
+            D.add("history:array_vanishes")
+        if app:
+            D.add("history:array_appears")
+        if ac.PARTICLES in van:
+            D.add("history:particles_to_zero")
+        if hist["auto"]:
+            D.add("cadence:" + hist["auto"]); D.add("callbacks:heartbeat")
+            ievs = [e for e in meta["events"] if isinstance(e, dict) and "hb" in e]
+            dirs_ = [e.get("dir", 1) for e in ievs]
+            if any(d_ < 0 for d_ in dirs_):
+                D.add("time:dt<0_cadence")
+            if len(set(dirs_)) > 1:
+                D.add("time:direction_reversal")
+            if len(ievs) > 1:
+                D.add("time:integrate_split")
+            if any(e["exact"] == 1 for e in ievs):
+                D.add("time:exact_finish_time=1")
+            if any(e["exact"] is None for e in ievs):
+                D.add("time:exact_finish_time_omitted")
+            if any(a["kind"] == "manual" for a in meta["appends"]):
+                D.add("cadence:mixed_manual")
+        for d_ in D:
+            dims[d_] = dims.get(d_, 0) + 1
         key = (hist["structural"] or hist["auto"] or "free", hist["init"]["integrator"], n, tuple(sorted(van)), tuple(sorted(app)))
         c.count(key, nontrivial=n >= 2, n=n)
         kinds_hist[key[0]] = kinds_hist.get(key[0], 0) + 1
@@ -567,7 +803,9 @@ def _run(c, rebound, exe, W):
     while hi < nh and time.time() - t_start < budget:
         rng = c.rng.fork()
         r = hi % 12
-        if r in (0, 3, 6):
+        if hi == 5:
+            hist = ac.gen_history(rng, 2500 if c.thorough else 700, structural="huge_n")
+        elif r in (0, 3, 6, 9):
             hist = ac.gen_history(rng, rng.randint(2, maxapp), structural=STRUCT_KINDS[(hi // 3) % len(STRUCT_KINDS)])
         elif r in (1, 7):
             hist = ac.gen_history(rng, 0, auto=("interval" if (hi // 2) % 2 else "step"))
@@ -644,6 +882,11 @@ def _run(c, rebound, exe, W):
     if batch:
         flush(batch)
     c.cov.update(stats)
+    c.cov["dimensions"] = dict(sorted(dims.items()))
+    missing = [d_ for d_ in REQUIRED_DIMS if not dims.get(d_)]
+    c.cov["dimensions_missing"] = missing
+    if missing and time.time() - t_start < budget:
+        c.broken.append("dimension(s) not covered by the generated histories: %s" % ", ".join(missing))
     c.cov["single_change_kinds"] = change_kinds
     c.cov["generator_hazards_dropped"] = hazards
     c.cov["memory_errors_outside_the_archive_code"] = outside
